@@ -240,3 +240,13 @@ def check(ctx):
         for k in ("add", "commit"):
             ctx.require(R7, "${file_name}" in [A.render_symbolic(a) for a in by_cmd[k]["args"]] and "${file_directory}" in [A.render_symbolic(a) for a in by_cmd[k]["args"]],
                         path, "git %s operates on the written file in its directory" % k, ["default_hooks", "git-%s-file" % k])
+    # ... and the daemon does run those types around every write: write_file's success-path traces (new / existing file x file type)
+    # show `file-pre-X` before the open and the matching `file-post-X` after the write — the events the git group is hooked on
+    from .storage_common import write_file_traces
+    from .c10 import KEBAB
+    traces = write_file_traces(prog)
+    for (exists, ft), tr in sorted(traces.items()):
+        hk = [KEBAB.get(e[1], e[1]) for e in tr["events"] if e[0] == "hook"]
+        want = ["file-pre-edit", "file-post-edit"] if exists else ["file-pre-create", "file-post-create"]
+        ctx.require(R7, tr["kind"] == "return" and hk == want, "acmed/src/storage.rs", "%s %s file: the daemon runs %s (so init precedes and add + commit follow the write); evaluated: %s" % ("rewritten" if exists else "new", ft, want, hk),
+                    ["storage::write_file", "file-events", "exists" if exists else "new", ft])
